@@ -219,9 +219,11 @@ pub fn load_corpus() -> Corpus {
     // (fixed seed: the set is a function of the schema only), printed; a printed text that some
     // dialect accepts is an accepted text like any other
     if std::path::Path::new(&format!("{}/schema.json", gen_dir())).exists() && std::env::var("VERIF_NO_ASTGEN").is_err() {
-        let g = crate::astgen::AstGen::load();
+        let mut g = crate::astgen::AstGen::load();
+        g.realistic = true;
         let mut errs = vec![];
-        for st in g.statements(3000, 12345, &mut errs) {
+        let n = if std::env::var("VERIF_TIER").map(|t| t == "thorough").unwrap_or(false) { 16000 } else { 5000 };
+        for st in g.statements(n, 12345, &mut errs) {
             if let G::Val(p) = guard(|| st.to_string()) {
                 if p.len() < 600 && !p.trim().is_empty() { literals.push(p); }
             }
